@@ -41,12 +41,25 @@ META = {
         "specs that Python's typing / dataclasses / pydantic itself refuses to build are skipped by rule and counted",
     ],
     "bound": {
-        "quick": "<=3 classes: all 1- and 2-level hierarchies over the medium alphabets, 3-level chains and V-shapes over the "
-                 "small alphabets, W-join (5 classes, fixed shape), variadic 1-2 levels; kinds dataclass/attrs/pydantic "
-                 "(+NamedTuple/TypedDict single level); arity-2 leaves with 5 of the 16 argument pairs + bare",
-        "thorough": "<=4 classes: 2-level over the large alphabets, 3-level over medium/small, 4-level chains and diamonds "
-                    "(equal and different bindings) over the small alphabets, V-shapes, W-join, variadic up to 3 levels; "
-                    "NamedTuple/TypedDict also 2-level where the kind allows; all 16 argument pairs + bare",
+        "quick": (
+            "<=3 classes (+ the fixed 5-class W-join): 17 roots x 5 kinds; 2-level = 17 roots x {bare base, every argument tuple "
+            "over {T,U,int,str,List[T]} (bound/constrained positions: {B,int,bool}/{C,int,str})} x Generic variants {implicit, "
+            "explicit, explicit reversed} x own fields {none, new z: v | List[v], re-annotation of the first inherited field with "
+            "int | v | List[v]}; 3-level chains = 6 roots x (arguments over {T,U,int} + bare, same Generic variants, own {none, "
+            "new, re-annotation int}) x (the same with implicit Generic); V-shapes 4x2 roots (distinct field names) and 2x2 "
+            "(same field name), arguments over {T,U,int} + bare; variadic: 6 roots x 15 argument lists x Generic variants x own "
+            "variants, 2 levels, dataclass; kinds dataclass/attrs/pydantic (NamedTuple/TypedDict single level); leaves of arity 2 "
+            "with 3 of the 16 argument pairs + bare, other leaves with every pool argument + bare"
+        ),
+        "thorough": (
+            "<=4 classes (+ W-join): 2-level with arguments over 11 expressions (arity 1) / 7 (arity 2), Generic variants incl. an "
+            "extra own type variable placed first, own fields over {v, List[v], Optional[v], Dict[str,v], Tuple[v,int], second "
+            "variable, Tuple[v,w]} and re-annotation of every inherited field; 3-level = 6 roots x quick's 2-level alphabet x small "
+            "alphabet with explicit/reversed Generic; 4-level chains over the small alphabet; V-shapes 6x6 (distinct names, "
+            "Generic variants) and 4x4 (same names); diamonds A0; A1(A0[..]); A2(A0[..]); A3(A1[..], A2[..]) over the small "
+            "alphabets with equal and different bindings; variadic up to 3 levels (attrs up to 2); NamedTuple/TypedDict also "
+            "2-level where the kind allows; all 16 argument pairs + bare"
+        ),
     },
 }
 
@@ -197,8 +210,6 @@ def child_classes(spec, base, name, level, new_name="z"):
 LV = {
     "S": {"args": "S", "generic": "S", "own": "S"},
     "Sg": {"args": "S", "generic": "M", "own": "S"},
-    "M": {"args": "M", "generic": "L", "own": "M"},
-    "Mm": {"args": "M", "generic": "M", "own": "S"},
     "Mq": {"args": "M", "generic": "M", "own": "M"},
     "L": {"args": "L", "generic": "L", "own": "L"},
 }
@@ -323,11 +334,8 @@ def variadic_specs(depth):
             continue
         for c1 in variadic_children(s0, "A0", "A1", "z1"):
             s1 = {"classes": [s0["classes"][0], c1]}
-            if rg.legality(s1) is not None:
-                yield s1       # counted as skipped by the evaluator
-                continue
-            yield s1
-            if depth < 3:
+            yield s1       # (an illegal one is counted as skipped by the evaluator)
+            if depth < 3 or rg.legality(s1) is not None:
                 continue
             for c2 in variadic_children(s1, "A1", "A2", "z2", V_ARGS3):
                 if c2["fields"] and c2["fields"][0][0] != "z2":
@@ -550,6 +558,12 @@ def to_hint(t):  # noqa: PLR0911
     raise ValueError(t)
 
 
+def has_typevar(ann):
+    if isinstance(ann, (typing.TypeVar, typing.TypeVarTuple)):
+        return True
+    return any(has_typevar(a) for a in typing.get_args(ann))
+
+
 def real_params(cls, kind):
     if kind == "pydantic":
         return [p.__name__ for p in cls.__pydantic_generic_metadata__["parameters"]]
@@ -695,6 +709,14 @@ class Evaluator:
                 report.skip(f"pydantic itself refuses to parametrise the class ({exc_name(e)})")
                 return
             raise
+        if kind == "pydantic":
+            # differential filter: where pydantic's own field resolution departs from typing's substitution the docs blame pydantic
+            for f, ts in ref.items():
+                ann = tp.model_fields[f].annotation
+                if len(ts) == 1 and not has_typevar(ann) and ann != to_hint(next(iter(ts))):
+                    report.skip("pydantic itself resolves a field differently from typing's substitution (documented: bugs in "
+                                "generic resolving inside pydantic itself)")
+                    return
         report.count("parametrisations", 1)
         for feature in argf:
             report.count(f"leaf_feature.{feature}", 1)
